@@ -1712,6 +1712,25 @@ C_SPELLING = {
 
 
 COMPLEX_SPELLING = {"Float128": "__complex128"}
+# keyword spellings that are equally correct
+C_SPELLING_ALT = {("IntKind", "Bool"): ["_Bool"]}
+# C99/C11 keywords that can occur in a type specifier
+C_KEYWORDS = {"void", "char", "short", "int", "long", "float", "double", "signed", "unsigned", "_Bool", "_Complex", "_Imaginary", "const",
+              "volatile", "restrict", "struct", "union", "enum", "_Float16", "_Atomic"}
+# names that are keywords in C++ only, for kinds that only C++ translation units produce (C's wchar_t is a typedef => Alias arm)
+CXX_ONLY_BUILTINS = {"wchar_t"}
+CXX_ONLY_KINDS = {("IntKind", "WChar")}
+LIB_HEADER = {"bool": "stdbool.h", "complex": "complex.h", "wchar_t": "stddef.h", "nullptr_t": "stddef.h"}
+
+
+def includes_std_header(prog, hdr):
+    """does serialize_items write `#include <hdr>` into the wrapper file?"""
+    if hdr is None:
+        return False
+    si = prog.fn("codegen::utils::serialize_items")
+    if si is None:
+        return False
+    return any(x["k"] == "Lit" and isinstance(x.get("v"), str) and ("<%s>" % hdr) in x["v"] for x in si.walk())
 
 
 def _fmt_text(v):
@@ -1719,7 +1738,7 @@ def _fmt_text(v):
     return _re.sub(r"[\x00-\x1f]", "", v or "").replace("�", "{}")
 
 
-@RULES.rule("R16.7", "wrapper signatures spell every C scalar type by its own C name", floor=18)
+@RULES.rule("R16.7", "wrapper signatures spell every C scalar type by its own C name, in keywords", floor=36)
 def r16_7(rep):
     """The wrapper is compiled by a C compiler against the original static function: `unsigned long f__extern(unsigned long)`
     for an `unsigned long long` function silently truncates on ILP32/LLP64 targets while the Rust binding passes 64 bits."""
@@ -1756,9 +1775,22 @@ def r16_7(rep):
             for text, b, a in hits:
                 is_complex = any(kind == "arm" and any("TypeKind::Complex" in x for x in _pv(g[0]["arms"][g[1]]["pat"]))
                                  for pol, kind, g in b.guards(a["body"]))
-                expect = COMPLEX_SPELLING.get(v, want + " complex") if is_complex else want
-                rep.check(text == expect, "c-name:%s::%s%s" % (short, v, ":complex" if is_complex else ""),
-                          "%s::%s is written as `%s` (C spelling: `%s`)" % (short, v, text, expect), b.loc(a["body"]))
+                accept = ([COMPLEX_SPELLING[v]] if v in COMPLEX_SPELLING else [want + " _Complex", want + " complex"]) if is_complex else \
+                    [want] + C_SPELLING_ALT.get((short, v), [])
+                rep.check(text in accept, "c-name:%s::%s%s" % (short, v, ":complex" if is_complex else ""),
+                          "%s::%s is written as `%s` (C spelling: `%s`)" % (short, v, text, accept[0]), b.loc(a["body"]))
+                # the wrapper file includes nothing but the user's headers: a spelling that is a library macro / typedef rather than
+                # a keyword only compiles when the header happens to include the defining standard header
+                if text in accept:
+                    lib = [t for t in C_TOKEN.findall(text) if re.match(r"[A-Za-z_]", t) and t not in C_KEYWORDS and not t.startswith("__")
+                           and not (t in CXX_ONLY_BUILTINS and (short, v) in CXX_ONLY_KINDS)]
+                    missing = [t for t in lib if not includes_std_header(prog, LIB_HEADER.get(t))]
+                    rep.check(not missing, "c-name-is-keyword:%s::%s%s" % (short, v, ":complex" if is_complex else ""),
+                              "`%s` consists of keywords / compiler builtins only" % text if not missing else
+                              "`%s` is not a C keyword but a name from <%s>, which the wrapper file does not include: a header that uses `%s` "
+                              "without it gets a wrapper that does not compile" % (missing[0], LIB_HEADER.get(missing[0], "?"),
+                                                                                  {"bool": "_Bool", "complex": "_Complex"}.get(missing[0], missing[0])),
+                              b.loc(a["body"]))
 
 
 @RULES.rule("R16.8", "options the wrapper file is assembled from are still there when it is assembled", floor=2)
